@@ -35,9 +35,11 @@ class C14(Prop):
                 g = []
                 for _ in range(r.range(2, 4)):
                     doc = J.render(r, ast, ws=True, shuffle=sort).encode()
-                    form = r.choice(["string", "bytes", "string", "bytes", "value"])
+                    form = r.choice(["string", "bytes", "string", "bytes", "value", "rawmsg"])
                     if form == "value" and ast[0] == "str":
                         form = "string"   # a Go string IS the string form (it would be taken as JSON text)
+                    # rawmsg: a Go value whose top-level type is a json.Marshaler (json.RawMessage): json.Marshal validates,
+                    # compacts and HTML-escapes what the Marshaler returns
                     o = {"op": "jsonsnap", "doc": hx(doc), "form": form, "grp": "%d.%d" % (i, len(groups)),
                          "ast": J.render(None, ast, ws=False)}
                     if cfg is not None:
@@ -63,7 +65,7 @@ class C14(Prop):
                     bad = r.choice(G.BAD_JSON)
                 else:
                     bad = good.replace(b":", b"=", 1) if b":" in good else good + b","
-                ops.append({"op": "jsonsnap", "doc": hx(bad), "form": r.choice(["string", "bytes"]), "maybe_bad": True})
+                ops.append({"op": "jsonsnap", "doc": hx(bad), "form": r.choice(["string", "bytes", "string", "bytes", "rawmsg"]), "maybe_bad": True})
                 if r.chance(1, 3):
                     t = r.choice(G.TEST_NAMES)
                     ops += [{"op": "dumpfs"}, G.op_match_doc(r.choice(["json", "standjson"]), 0, t, bad, r.choice(["string", "bytes"])), {"op": "dumpfs"}]
@@ -104,7 +106,9 @@ class C14(Prop):
             if any(v != "1" for _, (v, _) in items):
                 fails.append({"msg": "valid document rejected: %s" % ast[:80]})
                 continue
-            same_form = [t for raw, (v, t) in items if raw.get("form") != "value"]
+            # (a Go value is the document "through its standard JSON encoding": json.Marshal escapes < > &, reformats numbers,
+            # sorts map keys - its text is compared with the model, which is handed json.Marshal(value), not with the text forms)
+            same_form = [t for raw, (v, t) in items if raw.get("form") not in ("value", "rawmsg")]
             if len(set(same_form)) > 1:
                 fails.append({"msg": "presentations of one document stored differently: %s" % ast[:80]})
             for raw, (v, t) in items:
